@@ -152,8 +152,30 @@ func ext۰time۰Since(fr *frame, args []value) value {
 	return d
 }
 
+// zeroOf returns the zero result of the called function (used by prefix stubs).
+func stubZero(fr *frame, args []value) value { return zeroResult(fr.fn) }
+
 func init() {
+	// logging and metrics are formatting / counters only: empty bodies.
+	for _, pre := range []string{
+		"(*go.uber.org/zap.SugaredLogger).",
+		"(*go.uber.org/zap.Logger).",
+		"go.uber.org/zap.",
+		"(*github.com/yorkie-team/yorkie/server/profiling/prometheus.Metrics).",
+	} {
+		prefixExternals = append(prefixExternals, struct {
+			prefix string
+			fn     externalFn
+		}{pre, stubZero})
+	}
 	for k, v := range map[string]externalFn{
+		// fresh distinct identifiers (bson object ids)
+		"github.com/yorkie-team/yorkie/server/backend/database/memory.newID": func(fr *frame, args []value) value {
+			fr.i.cx.fresh++
+			return fmt.Sprintf("id%022d", fr.i.cx.fresh)
+		},
+		// background tasks (publication, snapshot storing) are outside
+		"(*github.com/yorkie-team/yorkie/server/backend.Backend).Go": noop,
 		"time.Now":   ext۰time۰Now,
 		"time.Since": ext۰time۰Since,
 		"google.golang.org/protobuf/proto.Marshal":   ext۰proto۰Marshal,
